@@ -403,6 +403,22 @@ def run(tier):
     decodevc.check_decode(rep, 'C14')
     check_find_terminal(rep)
     check_without_code_map(rep)
+    # E: the instruction lengths sna2ctl works with (opcodes.decode) are the lengths sna2skool's disassembler uses - so block
+    # boundaries and sub-block directives fall on the instruction boundaries sna2skool sees (same enumeration as C07)
+    from props import c07
+    with Pool(2) as p7:
+        res7 = p7.map(c07.enumerate_set, ['', 'ALL'])
+    seen7 = set()
+    for opc, n7, fails7 in res7:
+        f7 = [f for f in fails7 if f[0] in ('size.decode', 'no_raise')]
+        rep.add_bulk(n7 - len({(k, h) for _, k, h, _ in f7}), 'exhaustive', 0, 'skoolkit.opcodes.decode vs Disassembler (instruction lengths), Opcodes=%s' % (opc or "''"), n=n7)
+        for kind, key, hexseq, detail in f7:
+            k2 = 'C14/%s/%s' % (kind, key.split('@')[0])
+            if k2 in seen7 or len(seen7) >= 8:
+                continue
+            seen7.add(k2)
+            rep.violation(k2, 'sna2ctl and sna2skool disagree on the length of bytes %s (%s): %s' % (hexseq, key, detail), {'case': {'size_enumeration': key}, 'detail': str(detail)})
+    rep.exhaustive.append({'domain': 'instruction length per opcode path: opcodes.decode vs Disassembler, 5 addresses x 5 operand bytes x 2 additional-opcode settings', 'size': sum(r[1] for r in res7), 'visited': sum(r[1] for r in res7), 'complete': True})
     from props import c14text, c14dict, c14map
     c14map.check_read_map(rep, 'C14')             # code-map blocks: increasing, disjoint, every map address inside a block
     c14text.check_text_scanners(rep, 'C14')       # _check_text / _get_text_blocks: blocks inside the requested range
@@ -450,6 +466,14 @@ def replay(path):
         r = replay_without_map({'start': case['start'], 'end': case['end']}, '')
         print(r['diffs'])
         if r['diffs']:
+            print('VIOLATION property=C14 replay=%s' % path)
+            return 1
+        return 0
+    if 'size_enumeration' in case:
+        from props import c07
+        bad = [f for opc in ('', 'ALL') for f in c07.enumerate_set(opc)[2] if f[0] in ('size.decode', 'no_raise')]
+        print(bad[:3])
+        if bad:
             print('VIOLATION property=C14 replay=%s' % path)
             return 1
         return 0
